@@ -69,6 +69,9 @@ pub fn new_scenario(r: &mut Rng, sid: String, prop: &str, out: &mut Vec<String>)
     let malformed = r.chance(1, 12);
     c.swap_fee = pick_fee(r, u, malformed);
     if prop == "C06" && r.chance(1, 3) { c.swap_fee = (0, 0, c.swap_fee.2); }
+    // a swap fee discount (never set by the programs for swaps, but part of `FeeParams`): the discounted part of the
+    // fee must stay in the liquidity pool, not vanish
+    if prop == "C04" && r.chance(1, 5) { c.swap_fee_discount = *r.pick(&[u / 5, u / 2, u, u / 3 + 1, u / 1000]); }
     c.swap_impact = pick_impact(r, &c);
     c.vi_swaps = r.chance(2, 5);
     if r.chance(1, 8) { c.max_pool_amount = if w == 64 { 5_000_000_000 } else { 5_000_000_000_000 }; }
